@@ -33,6 +33,8 @@ type Curve struct {
 	A, D               *big.Int
 	Base               Rep
 	Ops                []Op
+	Lib                func(r Rep) any
+	FromLib            func(p any) Rep
 	F                  *ofield.Fld
 	C                  *oted.Curve
 	B                  oted.Pt
